@@ -23,6 +23,31 @@ above 0x7e (all 256 × 2 cases) -/
 theorem escaped_is_printable : ∀ q ∈ [34, 39], ∀ b < 256,
     (escapeByte [q] b).all (fun c => decide (0x20 ≤ c) && decide (c ≤ 0x7e)) = true := by decide +kernel
 
+/-- lifted to whole strings: whatever the constant, the text between the quotes consists of printable ASCII only,
+so no byte of it depends on the encoding of the output file or can end the line -/
+theorem escaped_string_is_printable (q : Nat) (hq : q ∈ [34, 39]) (bs : List Nat) (hbs : ∀ b ∈ bs, b < 256) :
+    ∀ c ∈ escapeBytes bs [q], 0x20 ≤ c ∧ c ≤ 0x7e := by
+  intro c hc
+  simp only [escapeBytes, List.mem_flatMap] at hc
+  obtain ⟨b, hb, hcb⟩ := hc
+  have h := escaped_is_printable q hq b (hbs b hb)
+  rw [List.all_eq_true] at h
+  simpa using h c hcb
+
+/-- the escaped text is never shorter than the data and at most four characters per byte -/
+theorem escaped_length (q : Nat) (hq : q ∈ [34, 39]) (bs : List Nat) (hbs : ∀ b ∈ bs, b < 256) :
+    bs.length ≤ (escapeBytes bs [q]).length ∧ (escapeBytes bs [q]).length ≤ 4 * bs.length := by
+  have tbl : ∀ q ∈ [34, 39], ∀ b < 256, (decide (1 ≤ (escapeByte [q] b).length) && decide ((escapeByte [q] b).length ≤ 4)) = true := by
+    decide +kernel
+  induction bs with
+  | nil => simp [escapeBytes]
+  | cons b bs ih =>
+    have hb := tbl q hq b (hbs b (by simp))
+    have ih' := ih (fun x hx => hbs x (by simp [hx]))
+    simp only [escapeBytes, List.flatMap_cons, List.length_append, List.length_cons] at ih' ⊢
+    simp only [Bool.and_eq_true, decide_eq_true_eq] at hb
+    omega
+
 /-- character immediates (`IntLiteral.__bytes__` with `is_char`) use the same function with the
 single quote: the assembler reads the byte back -/
 theorem char_immediate_roundtrip (b : Nat) (hb : b < 256) :
